@@ -244,6 +244,8 @@ func vfStreamCases(thorough bool) []vfStreamCase {
 			// steady stream across the 10 s and 20 s marks (handshake deadlines, D16)
 			vfStreamCase{Plan: "asis", Burst: 2600, Senders: 1, Sizes: []int{100}, Gap: 10 * time.Millisecond, Back: 50},
 			vfStreamCase{Plan: "splits", Burst: 1300, Senders: 1, Sizes: []int{100, 4096}, Gap: 20 * time.Millisecond},
+			// high-rate stream across the 10 s mark: a teardown at that moment loses what is in flight
+			vfStreamCase{Plan: "asis", Burst: 100000, Senders: 2, Sizes: []int{100, 3000}, Gap: 200 * time.Microsecond},
 		)
 	}
 	return cs
